@@ -705,11 +705,19 @@ def hostile_identifiers(lexer_cls, reserved=()):
     """Deterministic list of identifier part texts: every token word of the lexer (also the multi-word /
     underscore tokens) in several spellings and decorated with $, digits, underscores; plus all strings of
     length <= 3 over a small hostile alphabet.  None contains a back-quote, so each can be written `x`."""
+    import re as _re
     words = set()
-    for name in sorted(lexer_cls.tokens):
-        words.add(name.lower())
-        if '_' in name:
-            words.add(name.lower().replace('_', ' '))
+    classes = lexer_cls if isinstance(lexer_cls, (list, tuple)) else [lexer_cls]
+    for L in classes:
+        for name in sorted(L.tokens):
+            words.add(name.lower())
+            if '_' in name:
+                words.add(name.lower().replace('_', ' '))
+            # words a token PATTERN matches beyond its name (e.g. `/|\bDIV\b`): they are keywords of that dialect too
+            pat = getattr(L, name, None)
+            if isinstance(pat, str):
+                for w in _re.findall(r'\\b([A-Za-z_]{2,})\\b', pat):
+                    words.add(w.lower())
     for w in reserved:
         words.add(str(w).lower())
     out = []
